@@ -103,23 +103,6 @@ Section ApiDeriv.
     o2 <- derive_path (o_hash160 ask) (pk_ops pk) (to_nat fuel) o1 (nz is_abs) path ;;
     Ok (observe pk (if nz pub_after then convert_to_public (pk_ops pk) o2 else o2)).
 
-  (* FromPublicKey(P, key_data).DerivePath(path) *)
-  Definition run_pub (pk : packed) (hm : list N -> list N -> list N) (fuel : N) (Pv : val)
-             (kd : key_data) (is_abs : N) (path : list N) : res val :=
-    match pk_in pk Pv with
-    | None => bad_call
-    | Some P =>
-      o <- new_pub (pk_ops pk) P kd ;;
-      o2 <- derive_path (o_hash160 ask) (pk_ops pk) (to_nat fuel) o (nz is_abs) path ;;
-      Ok (observe pk o2)
-    end.
-
-  (* PrivateKey() after optional ConvertToPublic(): the refusal clause *)
-  Definition run_private_key (pk : packed) (kb : list N) (kd : key_data) (pub_first : N) : res val :=
-    o <- new_priv (pk_ops pk) kb kd ;;
-    let o1 := if nz pub_first then convert_to_public (pk_ops pk) o else o in
-    rb (private_key (pk_ops pk) o1).
-
   (* ---- histories: a start object and a list of operations
        start: VL [VN 0; VB seed] | VL [VN 1; VB kb; VN depth; VN index; VB chain; VB pfp]
             | VL [VN 2; P; VN depth; VN index; VB chain; VB pfp]
@@ -181,19 +164,10 @@ Section ApiDeriv.
          run_priv (pack curve variant hm) hm fuel kb (kd_of depth index chain pfp) pub_first pub_after
                   is_abs (vals_N path)
        | _ => bad_call end);
-    ("slip10_pub_path", fun a => match a with
-       [VN curve; VN variant; VN fuel; VL mock; Pv; VN depth; VN index; VB chain; VB pfp; VN is_abs; VL path] =>
-         let hm := hmac_with (mock_of mock) in
-         run_pub (pack curve variant hm) hm fuel Pv (kd_of depth index chain pfp) is_abs (vals_N path)
-       | _ => bad_call end);
     ("slip10_script", fun a => match a with
        [VN curve; VN variant; VN fuel; VL mock; st; VL ops] =>
          let hm := hmac_with (mock_of mock) in
          run_script (pack curve variant hm) hm fuel st ops
-       | _ => bad_call end);
-    ("slip10_private_key", fun a => match a with
-       [VN curve; VB kb; VN depth; VN index; VB chain; VB pfp; VN pub_first] =>
-         run_private_key (pack curve 0 (o_hmac_sha512 ask)) kb (kd_of depth index chain pfp) pub_first
        | _ => bad_call end);
     (* ElectrumV1.FromPrivateKey(kb)[ -> FromPublicKey(its public key)].GetPublicKey(change, addr) *)
     ("ev1_get_public_key", fun a => match a with
